@@ -65,10 +65,58 @@ def collect_notes(tier):
             m = mapsrc.load(n)
         except Exception:  # noqa (C16)
             continue
+        try:
+            xn = xml_notes(n)
+        except Exception:  # noqa
+            xn = None
+        seen = {}
         for node in mapsrc.iter_nodes(m):
-            if node.is_segment() and node.syntax:
-                for syn in node.syntax:
+            if node.is_segment():
+                # the notes the map FILE gives this segment (not what the loaded object kept)
+                if xn is not None:
+                    key = (node.parent.get_path(), node.id, str(node.pos), (node.name or '').strip())
+                    k = seen.get(key, 0)
+                    seen[key] = k + 1
+                    occ = xn.get(key)
+                    FILE_NOTES[(n, id(node))] = occ[k] if occ is not None and k < len(occ) else None
+                fn = FILE_NOTES.get((n, id(node)))
+                for syn in (fn if fn is not None else node.syntax):
                     out.append((n, node, list(syn)))
+                if fn is not None and sorted(map(list, node.syntax)) != sorted(fn):
+                    NOTES_DIFFER.append((n, node.get_path(), [list(x) for x in node.syntax], fn))
+    return out
+
+
+NOTES_DIFFER = []
+
+
+FILE_NOTES = {}
+
+
+def parse_note(text):
+    """a syntax note text read by the X12 convention: a letter, then two-digit positions (my own reading; None when not a note)"""
+    t = (text or '').strip()
+    if len(t) < 3 or t[0] not in 'PRECL' or (len(t) - 1) % 2 or not t[1:].isdigit():
+        return None
+    return [t[0]] + [int(t[i:i + 2]) for i in range(1, len(t), 2)]
+
+
+def xml_notes(mapfile):
+    """{(loop path, segment id, pos, name): [[note, ...] per occurrence in document order]} read straight from the XML"""
+    import os
+    import xml.etree.ElementTree as et
+    out = {}
+    root = et.parse(os.path.join(core.REPO, 'pyx12', 'map', mapfile)).getroot()
+
+    def walk(el, path):
+        for ch in el:
+            if ch.tag == 'loop':
+                walk(ch, path + [ch.get('xid')])
+            elif ch.tag == 'segment':
+                notes = [parse_note(x.text) for x in ch.findall('syntax')]
+                key = ('/' + '/'.join(path), ch.get('xid'), (ch.findtext('pos') or '').strip(), (ch.findtext('name') or '').strip())
+                out.setdefault(key, []).append([n for n in notes if n is not None])
+    walk(root, [])
     return out
 
 
@@ -110,8 +158,13 @@ def run(ctx, report):
     # degenerate notes (model tie only): arity < 2, unknown letters
     for code, idxs in (('P', [1]), ('R', []), ('X', [1, 2]), ('C', [2]), ('L', [3])):
         cases.append(('TST*A*B*C', code, idxs))
+    del NOTES_DIFFER[:]
     notes = collect_notes(tier)
     report.count('map_notes', len(notes))
+    report.count('segments-with-notes-read-from-the-file', sum(1 for v in FILE_NOTES.values() if v))
+    for (mname, pth, loaded, infile) in NOTES_DIFFER[:20]:
+        report.fail('C14:notes-not-kept', 'segment %s: the map file gives the notes %r, the loaded node evaluates %r' % (pth, infile, loaded),
+                    {'map': mname, 'path': pth})
     seen = set()
     map_cases = []
     for (mname, node, syn) in notes:
@@ -187,8 +240,11 @@ def run(ctx, report):
             continue
         got = sorted(e[0] for e in errh.err_ele if e[1].startswith('Syntax'))
         want = []
-        for syn in node.syntax:
-            ok, _ = __import__('pyx12.syntax').syntax.is_syntax_valid(sg, syn)
+        notes = FILE_NOTES.get((mname, id(node)))
+        if notes is None:
+            report.count('routing:notes-from-loaded-object')
+            notes = node.syntax
+        for syn in notes:
             # independent evaluation of the definition
             idxs = [int(x) for x in syn[1:]]
             pres = [len(sg) >= i and not sg.elements[i - 1].is_empty() for i in idxs]
